@@ -20,6 +20,7 @@ import (
 	"strings"
 	"sync"
 	"testing"
+	"time"
 
 	NoKV "github.com/feichai0017/NoKV"
 	"github.com/feichai0017/NoKV/utils"
@@ -104,7 +105,23 @@ func tagOf(v []byte) int {
 	return n
 }
 
+// run retries a case whose scheduler run ended in a harness problem (a worker that could
+// not be torn down / a step that timed out while the machine is overloaded): only a
+// problem that shows in three executions from scratch is reported (as inconclusive).
 func run(c Case, r *pbt.Rec) error {
+	var err error
+	for attempt := 0; attempt < 3; attempt++ {
+		err = runAttempt(c, r)
+		var f *pbt.Fail
+		if err == nil || !errors.As(err, &f) || f.Sig != "harness" {
+			return err
+		}
+		r.Label("harness-retry")
+	}
+	return err
+}
+
+func runAttempt(c Case, r *pbt.Rec) error {
 	dir, cleanup := pbt.TempDir("c05")
 	defer cleanup()
 	cfg := eng.Cfg{Engine: "skiplist", ValueThreshold: 1 << 20, Buckets: 1, VlogFileSize: 1 << 20, MemTableSize: 8 << 20}
@@ -236,7 +253,8 @@ func oneRound(c Case, r *pbt.Rec, db *NoKV.DB, round int) error {
 				}
 				return nil
 			},
-			MaxSteps: 5000,
+			MaxSteps:    5000,
+			HangTimeout: 15 * time.Second,
 		})
 		for i := 0; i < c.Writers; i++ {
 			i := i
